@@ -221,6 +221,17 @@ class ScriptedSocket(socket.socket):
         return out
 
 
+def handler_returning(k, sink=None):
+    """An ERR_LOG handler; what it returns is its own business: nothing, True, False,
+    the error itself or a count, chosen by k."""
+    def handler(err):
+        if sink is not None:
+            sink.append(err)
+        return (None, True, False, err, 17)[k % 5]
+
+    return handler
+
+
 def protocol_errors():
     import pynmeagps.exceptions as nme
     import pyrtcm.exceptions as rte
